@@ -52,6 +52,9 @@ def worlds(tier: str, stats: Dict[str, Any]) -> Iterator[Any]:
         T = b["T"]
         mir = [[T - i[1], T - i[0], i[2], i[3], i[4]] for i in ms]
         yield dict(mode="file", ranks=[[list(i) for i in ms], mir])
+        if len(ms) == 2:
+            stats["transitions"] += 1
+            yield dict(mode="file", ranks=[[list(i) for i in ms]], no_corr=True)
     for seq in ivworlds.history_sequences():
         stats["transitions"] += len(seq)
         yield dict(mode="history", seq=seq)
@@ -108,7 +111,7 @@ def check(world) -> Dict[str, Any]:
         exp = {r: expected(its) for r, its in ranks.items()}
         if any(v is None for v in exp.values()):
             return dict(viol=[], nontrivial=False, outcome="undef", execs=0)
-        tas = [htaenv.load_world({r: ivworlds.events_for(its) for r, its in ranks.items()})[0]]
+        tas = [htaenv.load_world({r: ivworlds.events_for(its, no_corr=bool(world.get("no_corr"))) for r, its in ranks.items()})[0]]
         b_dev = 1
 
     def run():
